@@ -1,6 +1,7 @@
 (** Typed/Hand.v — hand-written Object/ObjectWrite pairs: Date (primitive.rs), Rectangle (object/types.rs),
-    Matrix (content.rs).  Other hand-written types are outside the model ([unmodelled]).  No proofs here. *)
-From PdfV Require Import Base.Prelude Typed.Prim Typed.Schema Typed.Derive.
+    Matrix (content.rs), Action with named destinations and NameTree<Primitive> (object/types.rs).  Other hand-written
+    types are outside the model ([unmodelled]).  No proofs here. *)
+From PdfV Require Import Base.Prelude Gen.Generated Typed.Prim Typed.Schema Typed.Derive.
 
 Definition hid_Date : N := 0.
 Definition hid_Rectangle : N := 1.
@@ -33,9 +34,11 @@ Fixpoint take_numbers (n : nat) (l : list prim) : tres (list Z) :=
            end
   end.
 
-(* content.rs: impl Object for Matrix — matrix(&mut p.into_array()?.into_iter()): no resolve, extra elements ignored *)
-Definition read_matrix (p : prim) : tres value :=
-  tdo arr <- into_array p; tmap VNums (take_numbers 6 arr).
+(* content.rs: impl Object for Matrix — matrix(&mut p.resolve(resolve)?.into_array()?.into_iter()) (the resolve: after
+   fix C18-c); extra elements ignored *)
+Definition read_matrix (rs : N -> tres prim) (p : prim) : tres value :=
+  tdo q <- (if matrix_reader_resolves then resolve_if_ref rs p else TOk p);
+  tdo arr <- into_array q; tmap VNums (take_numbers 6 arr).
 
 (* ObjectWrite for Rectangle / Matrix: Primitive::array::<f32>([..]) *)
 Definition write_numbers (n : nat) (v : value) : tres prim :=
@@ -128,15 +131,111 @@ Definition write_date (v : value) : tres prim :=
   | _ => ill_typed
   end.
 
+(** * Action (object/types.rs): Goto with a named destination, and every other action kept as its dictionary.
+      An explicit destination array (Dest::from_array) is outside the model. *)
+Definition hid_Action : N := 3.
+Definition hid_NameTreePrim : N := 4.
+Definition c_NoneError : N := 11.            (* PdfError::NoneError: the try_opt! macro *)
+Definition k_S : bytes := [83].
+Definition k_D : bytes := [68].
+Definition n_GoTo : bytes := [71; 111; 84; 111].
+
+(* primitive.rs: into_dictionary *)
+Definition into_dictionary (p : prim) : tres dict := match p with PDict d => TOk d | _ => unexpected end.
+(* primitive.rs: into_string *)
+Definition into_string (p : prim) : tres bytes := match p with PStr s => TOk s | _ => unexpected end.
+
+(* object/types.rs: impl Object for MaybeNamedDest *)
+Definition read_maybe_named_dest (rs : N -> tres prim) (p : prim) : tres value :=
+  tdo q <- resolve_if_ref rs p;
+  match q with
+  | PStr s => TOk (VSome (VStr s))
+  | PDict _ | PArr _ => unmodelled
+  | _ => TErr (ETry (EBase c_Unexpected))     (* t!(p.as_array(), p) *)
+  end.
+
+(* object/types.rs: impl Object for Action.  Goto (Named s) = VSome (VStr s), Other d = VDict d *)
+Definition read_action (rs : N -> tres prim) (p : prim) : tres value :=
+  tdo q <- resolve_if_ref rs p;
+  tdo d <- t_try (into_dictionary q);
+  match dget k_S d with
+  | None => TErr (EBase c_NoneError)
+  | Some sp =>
+    tdo s <- as_name sp;
+    if beqb s n_GoTo then
+      match dget k_D d with
+      | None => TErr (EBase c_NoneError)
+      | Some dp => t_try (read_maybe_named_dest rs dp)
+      end
+    else TOk (VDict d)
+  end.
+
+(* object/types.rs: impl ObjectWrite for Action (after fix C15-b: /S /GoTo is written) *)
+Definition write_action (v : value) : tres prim :=
+  match v with
+  | VSome (VStr s) => TOk (PDict (dinsert k_D (PStr s) (dinsert k_S (PName n_GoTo) [])))
+  | VDict d => TOk (PDict d)
+  | _ => ill_typed
+  end.
+
+(** * NameTree<Primitive> (object/types.rs): the reader; the writer is `todo!()` *)
+Definition k_Limits : bytes := [76; 105; 109; 105; 116; 115].
+Definition k_Kids : bytes := [75; 105; 100; 115].
+Definition k_Names : bytes := [78; 97; 109; 101; 115].
+
+Fixpoint read_kids (l : list prim) : tres (list value) :=      (* Ref::<NameTree<T>>::from_primitive per kid *)
+  match l with
+  | [] => TOk []
+  | PRef i g :: t => tdo r <- read_kids t; TOk (VRef i g :: r)
+  | _ :: _ => unexpected
+  end.
+Fixpoint read_names (rs : N -> tres prim) (l : list prim) : tres (list value) :=     (* names.chunks_exact(2) *)
+  match l with
+  | k :: v :: t =>
+    tdo q <- resolve_if_ref rs k; tdo n <- into_string q;
+    tdo r <- read_names rs t; TOk (VPair (VStr n) (VPrim v) :: r)
+  | _ => TOk []
+  end.
+
+(* Leaf l = VPair limits (VSome (VVec l)), Intermediate l = VPair limits (VDirect (VVec l)) *)
+Definition read_nametree (rs : N -> tres prim) (p : prim) : tres value :=
+  tdo q <- resolve_if_ref rs p;
+  tdo d <- t_try (into_dictionary q);
+  tdo limits <- (match dget k_Limits d with
+                 | None => TOk VNone
+                 | Some lp =>
+                   tdo lq <- resolve_if_ref rs lp; tdo arr <- into_array lq;
+                   match arr with
+                   | [a; b] => tdo x <- into_string a; tdo y <- into_string b; TOk (VSome (VPair (VStr x) (VStr y)))
+                   | _ => TErr (EBase c_Other)
+                   end
+                 end);
+  match dget k_Kids d, dget k_Names d with
+  | Some kp, _ =>
+    tdo kq <- resolve_if_ref rs kp; tdo arr <- into_array kq;
+    tdo ks <- t_try (read_kids arr); TOk (VPair limits (VDirect (VVec ks)))
+  | None, Some np =>
+    tdo nq <- resolve_if_ref rs np; tdo arr <- into_array nq;
+    tdo ns <- read_names rs arr; TOk (VPair limits (VSome (VVec ns)))
+  | None, None => TOk (VPair limits (VDirect (VVec [])))
+  end.
+
+Definition site_nametree_todo : N := 1199.    (* object/types.rs: todo!("impl ObjectWrite for NameTree") *)
+Definition write_nametree (v : value) : tres prim := TPanic site_nametree_todo.
+
 (** * the table *)
 Definition hand_read (i : N) (rs : N -> tres prim) (p : prim) : tres value :=
   if i =? hid_Date then read_date rs p
   else if i =? hid_Rectangle then read_rectangle rs p
-  else if i =? hid_Matrix then read_matrix p
+  else if i =? hid_Matrix then read_matrix rs p
+  else if i =? hid_Action then read_action rs p
+  else if i =? hid_NameTreePrim then read_nametree rs p
   else unmodelled.
 Definition hand_write (i : N) (v : value) : tres prim :=
   if i =? hid_Date then write_date v
   else if i =? hid_Rectangle then write_numbers 4 v
   else if i =? hid_Matrix then write_numbers 6 v
+  else if i =? hid_Action then write_action v
+  else if i =? hid_NameTreePrim then write_nametree v
   else unmodelled.
 Definition hands : hand := {| h_read := hand_read; h_write := hand_write |}.
